@@ -252,6 +252,39 @@ func rqRun(which string) func(c *core.Ctx) {
 				if allExh {
 					exh++
 				}
+				// round trip over buffers of odd and other non-round lengths (remainder loops of paths that
+				// handle several samples per iteration): extreme amplitudes up to the very last position
+				if which == "C07" && td.Bits > ts.Bits && !c.Expired() {
+					hi := int64(1)<<uint(ts.Bits-1) - 1
+					lo := -hi - 1
+					pat := []int64{hi, lo, -1, 1, hi - 1, lo + 1, 2}
+					nf := newFailCap(3)
+					for _, L := range []int{1, 2, 3, 5, 6, 7, 9, 11, 13, 15, 17, 31, 33, 63, 65, 127, 129, 255, 257, 511, 513, 1023, 1025, 4097} {
+						for ch := 1; ch <= 2; ch++ {
+							if L%ch != 0 {
+								continue
+							}
+							fwd, back := dyn.ConvBlockCh(s, d, L, ch), dyn.ConvBlockCh(d, s, L, ch)
+							rin, rout, rback := make([]uint64, L), make([]uint64, L), make([]uint64, L)
+							for i := range rin {
+								rin[i] = ampToRaw(ts.Kind, ts.Bits, pat[(i+L)%len(pat)])
+							}
+							fwd(rin, rout)
+							back(rout, rback)
+							for i := range rin {
+								if a := pat[(i+L)%len(pat)]; rawToAmp(ts.Kind, ts.Bits, rback[i]) != a && nf.ok("roundtrip") {
+									cs := rqCase{ts.Name, td.Name, []int64{a}, []int{ch}, []int{i}, []int{L}}
+									fs := rqEvalCase(which, cs)
+									if len(fs) == 0 {
+										fs = []F{histDep(name, fmt.Sprintf("%s then back, buffers of %d samples (%d channels): amplitude %d at position %d became %d", name, L, ch, a, i, rawToAmp(ts.Kind, ts.Bits, rback[i])))}
+									}
+									c.Fail(cs, fs...)
+								}
+							}
+							evals.Add(int64(L))
+						}
+					}
+				}
 			}
 		}
 		c.Set("evaluations", evals.Load())
